@@ -1079,6 +1079,11 @@ def check_C12(work, args):
         agg['fail_kinds'][f['kind'] + ('[' + ','.join(f['classes']) + ']' if f['classes'] else '')] += 1
         agg['fail_groups'][json.dumps([f['kind'], f['classes']])] += 1
     settled = settle(ck, 'C12', agg, kf, extra_fails=cli_fails)
+    # the parser stage tied to the Coq model: lelwel's own generated parser (as checked in) against Exec.v on token sequences
+    import checks as _checks
+    tie = _checks.frontend_parser_tie(ck, work, 150 if quick else 3000)
+    for pr in tie['problems'][:3]:
+        ck.violation(pr['what'], pr, no_input=('tokens' not in pr))
     for e in kf.entries:
         r = k4.run_front([e['witness']['text']])[0]
         if CLASSES[e['class']][0] == 'format_panic' and CLASSES[e['class']][1](e['witness']['text'], r):
@@ -1094,6 +1099,8 @@ def check_C12(work, args):
     ck.cov['exhaustive_part'] = 'generator (a): every sequence of at most %d lexemes x 2 joiners (%d texts)' % (maxn, sum(k4.seq_count(n) for n in range(maxn + 1)))
     ck.cov['lexemes'] = k4.LEXEMES
     ck.cov['cli_probe'] = cli_stats
+    ck.cov['parser_stage_model_tie'] = {k: v for k, v in tie.items() if k != 'problems'}
+    ck.cov['parser_stage_model_tie']['problems'] = len(tie['problems'])
     ck.assumptions = TRUST + ['a watchdog of 10 s (more for long texts) stands for non-termination', 'the harness thread has a 256 MB stack; stack depth is only probed through the real binary (`llw -c`, 8 MB main thread)']
     ck.finish()
 
